@@ -26,7 +26,7 @@ RULE = (
     "case = incidence matrix (2-9 target proteins x 1-9 constructed tryptic peptides: subset chains, shared peptides, "
     "identical proteins) with mirrored decoys in the same relative order, a peptide table = drawn subset of target and "
     "decoy peptides with distinct scores, each optionally decorated (flanks K.X.A / -.X.-, [..] and (..) modifications "
-    "incl. a dot, lower-case modification letters, a second modified variant), proteins route = read_fasta or a "
+    "incl. a dot, two modifications on one peptide, lower-case modification letters, a second modified variant), optional extra rollup-level columns (a peptide group coarser than the peptide), proteins route = read_fasta or a "
     "Proteins object built from the reference grouping, PSM table as text or Parquet. Non-trivial: >=1 shared peptide observed and >=1 pair where "
     "both sides have a unique peptide. Distinct = distinct canonical JSON."
 )
@@ -45,7 +45,7 @@ def budget(tier):
     return {"examples": 12800, "shards": 16, "time_s": 900}
 
 
-DECOR = ["plain", "flank", "termflank", "bracket", "paren", "dotmod", "lower", "nterm"]
+DECOR = ["plain", "flank", "termflank", "bracket", "paren", "dotmod", "lower", "nterm", "twomods", "twomods-flank"]
 
 
 @st.composite
@@ -75,7 +75,8 @@ def _case(draw, tier):
                                   "rank": draw(st.integers(0, 10**6)), "variant": True})
     return {"matrix": rows, "table": table, "route": draw(st.sampled_from(["fasta", "fasta", "object"])),
             "known_order": "mirror", "conf_chunk": draw(st.sampled_from([None, 2, 5])),
-            "fmt": draw(st.sampled_from(["tsv", "tsv", "parquet"]))}
+            "fmt": draw(st.sampled_from(["tsv", "tsv", "parquet"])),
+            "extra_levels": draw(st.sampled_from([[], [], ["PeptideGroup"], ["ModifiedPeptide", "PeptideGroup"], ["Precursor"]]))}
 
 
 def strategy(tier):
@@ -98,6 +99,10 @@ def _decorate(p, kind, variant=False):
         return p[:mid] + "(ox)" + p[mid:] if not variant else p[:2] + "(ph)" + p[2:]
     if kind == "dotmod":
         return "R." + p[:mid] + "[+15.995]" + p[mid:] + ".G" if not variant else p[:3] + "[+79.97]" + p[3:]
+    if kind == "twomods":
+        return p[:2] + "[+57.02]" + p[2:4] + "[+57.02]" + p[4:]
+    if kind == "twomods-flank":
+        return "R." + p[:1] + "(ox)" + p[1:3] + "[+15.995]" + p[3:] + ".S"
     if kind == "lower":
         return p[:mid] + "m" + p[mid:]
     if kind == "nterm":
@@ -171,7 +176,15 @@ def check(case):
         "Peptide": [r["dec"] for r in rows],
         "Proteins": ["x" for _ in rows],
     })
-    meta = {"key_cols": ["ScanNr", "ExpMass"], "features": ["f0"], "levels": ["Peptide"]}
+    extra = list(case.get("extra_levels") or [])
+    for lv in extra:
+        if lv == "PeptideGroup":  # coarser than the peptide: consecutive peptides share a group
+            df.insert(len(df.columns) - 1, lv, [f"grp{i // 2}" for i in range(n)])
+        elif lv == "ModifiedPeptide":
+            df.insert(len(df.columns) - 1, lv, [r["dec"] + "_m" for r in rows])
+        else:
+            df.insert(len(df.columns) - 1, lv, [r["dec"] + "/2" for r in rows])
+    meta = {"key_cols": ["ScanNr", "ExpMass"], "features": ["f0"], "levels": ["Peptide"] + extra}
     with scratch_dir() as tmp:
         fasta = tmp / "db.fasta"
         fasta.write_text("".join(f">{nm}\n{s}\n" for nm, s in targets + decoys))
@@ -270,4 +283,6 @@ def check(case):
         classes.append("group>=3")
     if any(r["dec"] != r["stripped"] for r in rows):
         classes.append("decorated")
+    if extra:
+        classes.append("extra-levels:" + "+".join(extra))
     return {"nontrivial": shared_seen and both_sides, "classes": classes, "counters": {"entries_checked": len(order)}}
